@@ -459,6 +459,61 @@ def run_commit_order(o, tier, seed, log_path):
     return r
 
 
+# -------------------------------------------------------------------------------------------- D3o
+def run_reorg_order(o, tier, seed, log_path):
+    """reorg: on every path the block-number->hash table (the source of the height after a restart)
+    is rolled back only after every versioned table: a table roll-back writes through to disk, so a
+    crash in the middle must leave the height above the target - otherwise the repeated reorg is a
+    no-op at engine level and the remaining tables keep the abandoned blocks."""
+    sfn, _ = load_fn(log_path, "set_block_hash", r"_1: &mut Brc20ProgDatabase, _2: u64, _3: ")
+    sp = PathWalker(sfn, {"_2": "n"}, SOURCES, EVENT_RE).walk()
+    heights = {e[1] for p in sp for e in _has(p, "^BlockDatabase::set$")}
+    if len(heights) != 1:
+        raise Inconclusive("cannot identify the block-number->hash field from set_block_hash: " + str(heights))
+    hfield = heights.pop()
+    fn, _ = load_fn(log_path, "reorg", r"_1: &mut Brc20ProgDatabase, _2: u64$")
+    w = PathWalker(fn, {"_2": "n"}, SOURCES, EVENT_RE)
+    paths = w.walk()
+    rets = [p for p in paths if p["end"] == "return"]
+
+    def reorgs(p):
+        return [e for e in p["events"] if e[0].endswith("::reorg")]
+
+    def order_bad(p):
+        rs = reorgs(p)
+        hi = [i for i, e in enumerate(rs) if e[0].startswith("BlockDatabase") and e[1] == hfield]
+        vt = [i for i, e in enumerate(rs) if e[0].startswith("BlockCachedDatabase")]
+        return bool(hi) and bool(vt) and hi[0] < vt[-1]
+
+    def after_failure(p):
+        ev = [e[0] for e in p["events"]]
+        return "ERR_PROPAGATED" in ev and any(x.endswith("::reorg") for x in ev[ev.index("ERR_PROPAGATED") + 1:])
+
+    full = [p for p in rets if not _has(p, "^ERR_")]
+    nmax = max((len(reorgs(p)) for p in rets), default=0)
+    if not full or nmax < 2:
+        raise Inconclusive("reorg: no complete path found")
+    has_h = [p for p in full if any(e[1] == hfield for e in reorgs(p))]
+    pre = PRE + "\n".join(w.decls)
+    q = [
+        ("the enumerated paths are exhaustive|unsat", [f"(not {_or(paths)})"]),
+        ("no feasible path rolls the block-number->hash table back before a versioned table|unsat", [_or([p for p in rets if order_bad(p)])]),
+        ("no feasible path rolls a table back after a roll-back failed|unsat", [_or([p for p in rets if after_failure(p)])]),
+        ("no feasible path returns without error with fewer roll-backs than the complete path|unsat", [_or([p for p in full if len(reorgs(p)) < nmax])]),
+        ("twin: the complete path is feasible and rolls the block-number->hash table back|sat", [_or(has_h)]),
+    ]
+    r = smt_common.decide(pre, q, log_path, primary="z3", second="cvc5")
+    r["functions"] = ["db::brc20_prog_database::Brc20ProgDatabase::reorg (all paths; callee bodies not entered)",
+                      "db::brc20_prog_database::Brc20ProgDatabase::set_block_hash (to identify the block-number->hash field)"]
+    r["encoding"] = {"paths": _dump_paths(paths), "heights_field": list(hfield), "fresh_values": len(w.decls)}
+    if r["verdict"] == "fail":
+        r["failed_checks"] = [dict(function="Brc20ProgDatabase::reorg", description=nm.split("|")[0], file="src/db/brc20_prog_database.rs") for nm in r["counterexamples"]]
+        r["model"] = {}
+        r["which"] = "D3o"
+        r["witness_path"] = _dump_paths([p for p in rets if order_bad(p) or after_failure(p)][:1])
+    return r
+
+
 def _model(pre, queries, name):
     asserts = dict(queries)[name]
     script = "(set-logic ALL)\n" + pre + "\n" + "\n".join(f"(assert {a})" for a in asserts) + \
@@ -515,12 +570,12 @@ def replay(result, log_path=None):
     import native
     m = result.get("model") or {}
     which = result.get("which")
-    if which == "D4o":
+    if which in ("D4o", "D3o"):
         out_dir = os.path.join(os.path.dirname(HERE), "evidence", "replay")
         os.makedirs(out_dir, exist_ok=True)
-        p = os.path.join(out_dir, "C04_D4o.json")
+        p = os.path.join(out_dir, f"C04_{which}.mir.json")
         json.dump({"failed": result.get("failed_checks"), "path": result.get("witness_path")}, open(p, "w"), indent=1)
-        return {"reproduced": bool(result.get("witness_path")), "note": "structural finding: the order of the commit calls on a feasible path of the compiled MIR (the listed path); a crash between two of these calls is the run that exhibits it", "path": p}
+        return {"reproduced": bool(result.get("witness_path")), "note": "structural finding: the order of the table calls on a feasible path of the compiled MIR (the listed path); a crash between two of these calls is the run that exhibits it", "path": p}
     if "n" not in m or which not in ("D6", "D7"):
         return {"reproduced": None, "note": "no model values (structural finding: see detail)", "path": None}
     if not m.get("cfg_ok", True) or (which == "D7" and not m.get("fresh_block", True)):
@@ -539,7 +594,7 @@ def replay(result, log_path=None):
 
 
 if __name__ == "__main__":
-    for f in (run_reorg_guard, run_recorded_max, run_commit_order):
+    for f in (run_reorg_guard, run_recorded_max, run_commit_order, run_reorg_order):
         r = f(None, "quick", 0, None)
         print(f.__name__, r["verdict"], r["detail"], r["solver_s"])
         for p in r["encoding"]["paths"]:
